@@ -13,7 +13,11 @@ RULE = ("correspondence: generated documents (explicit targets via (name)=, attr
         "ResolveAnchorIds.apply, fed to the extracted Coq model, and the model's per-link result (refid, filled text, "
         "system message, pending) and warning lines are compared with what the real transform did; plus hand-made registry "
         "states (indirect targets, footnote/refuri/desc_ nodes, captions, terms) run through the real transform on synthetic "
-        "documents. search: the generator's own knowledge of the intended hit evaluated on the published doctree. "
+        "documents. Link positions: paragraph, list item, block quote, directive body, table cell, definition-list term and "
+        "definition, field-list body, footnote body, heading; targets: (name)= before paragraph/heading/at the end/in quotes, "
+        "{#id} on paragraphs, headings, spans and external links, directive :name:. search: the generator's own knowledge of "
+        "the intended hit evaluated on the published doctree (docutils; one-document Sphinx projects in the thorough tier; a "
+        "three-document Sphinx project for the project-wide fallthrough in every tier). "
         "non-trivial = a link that hits an explicit target that shadows a slug, a duplicate-title slug, or is missing")
 TRUSTED = ["coq/Refs/Anchors.v is a hand transcription of ResolveAnchorIds.apply (checked by correspondence, not proved)",
            "docutils registries (nametypes/nameids/ids), PropagateTargets and findall order are taken as found (read from the real document)",
@@ -30,10 +34,14 @@ LEVEL_TEXT = ("Proof (Coq) over a Gallina transcription of ResolveAnchorIds.appl
               "table is characterised declaratively from nametypes/nameids/ids (C09_explicit_spec), a missing target gives exactly one "
               "xref_missing warning at the link's line with the text kept or '#name' (C09_missing_warns_once, C09_warnings_exact), "
               "the reference list is preserved in length/order/explicit text (C09_refs_preserved), empty text is filled from the title or "
-              "'#name' (C09_implicit_text). The model is tied to transforms.py by differential correspondence on every run.")
+              "'#name' (C09_implicit_text); under Sphinx a link the document cannot resolve becomes one pending_xref at the link's line "
+              "and, composed with the C12 model of MystReferenceResolver, warns exactly once iff nothing in the project resolves it "
+              "(C09_sphinx_fallthrough). Refuted/open: an empty link to a missing target shows no text (C09_missing_empty_text_refuted). "
+              "The model is tied to transforms.py by differential correspondence on every run.")
 LEVEL_NOTE = ("Trusted: Coq kernel; hand transcription (checked by correspondence); docutils registries and traversal order are inputs "
-              "(read from the real document), not modelled; Sphinx: the missing branch hands over to MystReferenceResolver "
-              "(pending_xref), which is checked on the implementation by the search oracle in the thorough tier only.")
+              "(read from the real document), not modelled; Sphinx: the resolver after the pending_xref is the C12 builder's model "
+              "(coq/XRef/XRefModel.v, tied to the code by the C12 correspondence), composed here, its Sphinx-side oracles (other domains, "
+              "intersphinx) are premises. Open finding: text:missing-empty-not-filled.")
 
 _KINDS = None
 
@@ -193,8 +201,8 @@ def parse_model(reply):
         return []
     out = []
     for item in reply.split(" "):
-        refid, fill, warn, msg, pend = item.split("!")
-        out.append({"refid": dec_ostr(refid), "fill": dec_ostr(fill),
+        refid, fill, warn, msg, pend, pline = item.split("!")
+        out.append({"refid": dec_ostr(refid), "fill": dec_ostr(fill), "pline": None if pline == "~" else int(pline),
                     "wlines": [] if warn == "." else [0 if x == "~" else int(x) for x in warn.split(";")],
                     "msg": int(msg), "pending": pend == "1"})
     return out
@@ -506,8 +514,10 @@ def check_doc(ctx, case):
             ok = False
         if e["hit"] == "missing":
             exp_warn.append(l["line"])
-            if l["form"] != "text" and visible not in ("", "#" + l["frag"]):
-                ctx.fail("text:missing", case, f"link {i} {l['src']}: missing target shows {visible!r}", "#" + l["frag"], visible)
+            if l["form"] != "text" and visible != "#" + l["frag"]:
+                # an empty link must show something: '#name' (the code intends it, but see the open finding)
+                sig = "text:missing-empty-not-filled" if visible == "" and not suppressed else "text:missing"
+                ctx.fail(sig, case, f"link {i} {l['src']}: empty link to a missing target shows {visible!r}", "#" + l["frag"], visible)
                 ok = False
             if not suppressed and nmsg != 1:
                 ctx.fail("warn:missing-node-count", case, f"link {i} {l['src']}: {nmsg} system messages attached", 1, nmsg)
@@ -586,7 +596,14 @@ def _check_worker(case):
     return c.failures
 
 
+KNOWN_EMPTY_MISSING = {"kind": "doc", "text": "Intro.\n\n[](#nothing)\n", "settings": {},
+                       "links": [{"frag": "nothing", "form": "empty", "text": None, "src": "[](#nothing)", "line": 3,
+                                  "place": "para", "expect": {"hit": "missing"}}]}
+
+
 def search(ctx):
+    ctx.search_cases += 1
+    check_case(ctx, KNOWN_EMPTY_MISSING)       # open finding, reproduced on every run
     for c in ctx.suspects[:100]:
         if c:
             ctx.search_cases += 1
@@ -614,6 +631,8 @@ def search(ctx):
         ctx.sample({"search_doc": cases[0]["text"], "links": [(l["src"], l["expect"]) for l in cases[0]["links"]]})
     if ctx.tier == "thorough" or ctx.deep:
         search_sphinx(ctx)
+    else:
+        check_sphinx_fallthrough(ctx)      # one small Sphinx project also in the quick tier
 
 
 def check_doc_sphinx(ctx, case):
@@ -625,7 +644,8 @@ def check_doc_sphinx(ctx, case):
     from docutils import nodes
     from lib.impl import SphinxProject
     ha = case["settings"]["myst_heading_anchors"]
-    conf = f"myst_enable_extensions = ['attrs_block', 'attrs_inline']\nmyst_heading_anchors = {ha}\n"
+    conf = (f"myst_enable_extensions = ['attrs_block', 'attrs_inline', 'deflist', 'fieldlist']\nmyst_heading_anchors = {ha}\n"
+            "myst_footnote_sort = False\n")
     wit = {"kind": "sphinx-doc", "text": case["text"], "settings": case["settings"], "links": case["links"],
            "dup_names": case.get("dup_names", [])}
     try:
@@ -641,7 +661,8 @@ def check_doc_sphinx(ctx, case):
     warns = re.sub("\x1b\\[[0-9;]*m", "", res["warnings"])
     wl = sorted(int(m.group(1) or 0) for m in re.finditer(r"doc\.md:(\d*):? WARNING: [^\n]*\[myst\.xref_missing\]", warns))
     links = case["links"]
-    refs = list(doc.findall(nodes.reference))
+    # the external links that carry generated id attributes are targets, not '#'-links
+    refs = [r for r in doc.findall(nodes.reference) if not str(r.get("refuri", "")).startswith("https://example.org/")]
     ok = True
     if len(refs) != len(links):
         ctx.fail("sphinx:refs:count", wit, f"{len(links)} '#'-links written, {len(refs)} references in the resolved doctree",
@@ -727,8 +748,38 @@ def _sphinx_worker(case):
     return c.failures
 
 
+def check_sphinx_fallthrough(ctx):
+    """'#x' that the document cannot resolve falls through to the project: a label of another document
+    resolves silently, a name nobody defines gives exactly one warning at the link's line (also in a table)."""
+    import re
+    from docutils import nodes
+    from lib.impl import SphinxProject
+    files = {"index.md": "# Index page\n\n```{toctree}\ndoc\nother\n```\n",
+             "doc.md": "# Doc\n\n[](#other-tgt) [t](#other-tgt)\n\n| h |\n|---|\n| [](#nowhere) |\n\n[u](#Other-Tgt)\n",
+             "other.md": "(other-tgt)=\n# Other title\n\ntext\n"}
+    wit = {"kind": "sphinx-project", "files": files}
+    ctx.search_cases += 1
+    try:
+        res = SphinxProject(files, "").build()
+    except Exception as e:
+        ctx.fail("sphinx:" + exc_signature(e), wit, f"Sphinx build raised {e!r}")
+        return
+    warns = re.sub("\x1b\\[[0-9;]*m", "", res["warnings"])
+    wl = [(m.group(1), m.group(2)) for m in re.finditer(r"doc\.md:(\d*):? WARNING: ([^\n]*)\[myst\.xref_missing\]", warns)]
+    doc = res["doctrees"]["doc"]
+    refs = list(doc.findall(nodes.reference))
+    obs = {"warnings": wl, "refs": [(r.get("refuri") or r.get("refid"), r.astext()) for r in refs]}
+    want_refs = [("other.html#other-tgt", "Other title"), ("other.html#other-tgt", "t"), ("nowhere", "nowhere"),
+                 ("other.html#other-tgt", "u")]
+    if [w[0] for w in wl] != ["7"] or obs["refs"] != want_refs:
+        ctx.fail("sphinx:fallthrough", wit,
+                 f"project-wide fallthrough: warnings {wl}, references {obs['refs']}; expected one warning at line 7 and {want_refs}",
+                 {"warning_lines": ["7"], "refs": want_refs}, obs)
+
+
 def search_sphinx(ctx):
     from gen.c09_docs import gen_case
+    check_sphinx_fallthrough(ctx)
     n = ctx.budget(0, 400, 400)
     cases = [gen_case(ctx.rng) for _ in range(n)]
     per_sig = {}
